@@ -380,6 +380,29 @@ def judge(cases, impls, workdir: Path, per_shard=3):
     return verdicts, errors
 
 
+def py_actual_explains(case: dict, impl: dict) -> bool:
+    """Harness-side mirror of the faithful model, used ONLY when the Coq judge is unavailable for a case (the model no
+    longer compiles because a generated item failed closed, or coqc timed out): does the parallel output equal what the
+    two listed defects predict?  It never turns a failure into a pass: the run already ends with a VIOLATION; this only
+    decides whether the case is offered as the concrete failing input."""
+    if case["via"] != "api":
+        return True          # CLI cases are only judged by the Coq model
+    if impl["par"] is None:
+        return impl["seq"] is None
+    n = len(impl["perfile"])
+    eff = case["k"] or min(8, impl["cpu"])
+    if n == 0:
+        want = []
+    elif n < 2 * eff:
+        if any(v is None for v in impl["perfile"]):
+            return False     # the fallback raises: impl["par"] would be None
+        want = [v for vs in impl["perfile"] for v in vs] + impl["rep_full"]
+    else:
+        want = [v for j in impl["sched"] for v in (impl["perfile"][j] or [])] + impl["rep_nil"]
+    key = (lambda l: l) if impl["ordered"] else (lambda l: sorted(json.dumps(v) for v in l))
+    return key(impl["par"]) == key(want)
+
+
 def py_spec(impl: dict) -> bool:
     """the property stated directly on the observed outputs (cross-check of the Coq judge's spec bit)"""
     a, b = impl["seq"], impl["par"]
@@ -471,6 +494,11 @@ def run(tier: str, seed: int, replay: str | None = None) -> int:
             chk.violation({"reason": "a rule failed internally (swallowed exception) during the run", "failures": impl["failures"][:3], "case": case})
             continue
         if ver is None:
+            # no Coq judgement for this case (reported above as a broken obligation): still look for a failing input
+            if not py_spec(impl) and not py_actual_explains(case, impl):
+                chk.violation({"reason": "--parallel / lint_files_parallel result differs from the sequential result and is not what the "
+                                         "listed defects predict (harness-side comparison: the Coq judge was unavailable for this case)",
+                               "case": case, "observed": _summary(case, impl)})
             continue
         chk.traces_validated += 2
         dom, seq_ok, spec_ok, ideal_ok = (bool(b) for b in ver[:4])
